@@ -53,6 +53,8 @@ func c12ElemLen(r *ev.Rand, class int, unit int) (n int, tag string) {
 		return r.Range(200, 1500) / unit, "medium"
 	case 4:
 		return r.Range(65537, 70000) / unit, "huge"
+	case 6: // one element of a MiB or more (a collection of its own with room for followers)
+		return r.Range(1<<20, 1<<20+700000) / unit, "MiB"
 	default:
 		return r.Range(150000, 260000) / unit, "huge"
 	}
@@ -72,6 +74,7 @@ func c12Run(c *ev.Ctx) {
 	s := &hx.Script{SB: sbv}
 	var dss []*c12DS
 	tags := map[string]bool{}
+	mib := profile == 0 && c.Index%16 == 7
 	for d := 0; d < nds; d++ {
 		kind := kinds[r.Intn(len(kinds))]
 		unit := unitOf[kind]
@@ -114,6 +117,12 @@ func c12Run(c *ev.Ctx) {
 				}
 			}
 			cl := r.Weighted(w)
+			// one file in sixteen: the second element of the first dataset is a MiB long and is
+			// followed by the usual mix of small ones
+			if mib && d == 0 && i == 1 {
+				cl = 6
+				hugeBudget++
+			}
 			if cl >= 4 {
 				if hugeBudget == 0 {
 					cl = 1
@@ -509,7 +518,7 @@ func c12ErrClass(s string) string {
 var C12 = &ev.Property{
 	ID:    "C12",
 	Level: "exploration",
-	Rule: "each case writes 1-3 variable-length datasets (vlen string and vlen sequences of int32/int64/uint32/uint64/float32/float64; contiguous or chunked; rank 1-2; superblock 0/2/3; writes interleaved between datasets or not) with element lists of 1-12, 50-600, 1000-3000 or 10^4 elements whose byte lengths are drawn from {0, 1-24, the 4031..4081 collection-capacity edge, 200-1500, >64 KiB, >150 KiB}, strings with arbitrary bytes, embedded/trailing NUL and multi-byte UTF-8. After Close and reopen: the library must report a variable-length datatype and the written shape, any value its readers return must equal the written one (an error is accepted); the independent decoder must find class 9 with the written base type, follow every element reference into the global heap and return exactly the written bytes; every collection is also read with the library's own collection reader, which must list the same objects with the same bytes; one file in eight holds runs of 254-600 empty elements (collections filled to the last byte); every issue the decoder raises on a GCOL collection (size field, object size, alignment, free-space object, duplicate index, extent overlap) or on the element reference layout is a violation. " +
+	Rule: "each case writes 1-3 variable-length datasets (vlen string and vlen sequences of int32/int64/uint32/uint64/float32/float64; contiguous or chunked; rank 1-2; superblock 0/2/3; writes interleaved between datasets or not) with element lists of 1-12, 50-600, 1000-3000 or 10^4 elements whose byte lengths are drawn from {0, 1-24, the 4031..4081 collection-capacity edge, 200-1500, >64 KiB, >150 KiB; one file in sixteen with an element of 1-1.7 MiB followed by small ones}, strings with arbitrary bytes, embedded/trailing NUL and multi-byte UTF-8. After Close and reopen: the library must report a variable-length datatype and the written shape, any value its readers return must equal the written one (an error is accepted); the independent decoder must find class 9 with the written base type, follow every element reference into the global heap and return exactly the written bytes; every collection is also read with the library's own collection reader, which must list the same objects with the same bytes; one file in eight holds runs of 254-600 empty elements (collections filled to the last byte); every issue the decoder raises on a GCOL collection (size field, object size, alignment, free-space object, duplicate index, extent overlap) or on the element reference layout is a violation. " +
 		"non-trivial: every case; distinct = (superblock, kinds+layouts, length classes, count profile, interleaving).",
 	Assumptions: []string{"the independent decoder (validated on the reference corpus' vlen files against h5dump output) stands in for the format specification"},
 	Cases: func(tier string) int {
